@@ -1289,6 +1289,9 @@ def _variants():
         V("basis-eq-no-hash", remove_def(BA, "Basis.__hash__"), "fire", "C08-R1"),
         V("basis-hash-id", replace_expr(BA, "MeshBasis.__hash__", "tuple.__hash__(self)", "id(self)"), "fire", "C08-R2"),
         # ---- must stay silent
+        V("mesh-shading-kept-as-set", replace_expr(MP, "MeshPatt.__init__", "isinstance(shading, frozenset)", "isinstance(shading, (set, frozenset))"), "fire", "C08-R9"),
+        V("mesh-shading-stored-as-set", replace_expr(MP, "MeshPatt.__init__", "shading if isinstance(shading, frozenset) else frozenset(shading)", "set(shading)"), "fire", "C08-R9"),
+        V("mesh-shading-always-converted", replace_expr(MP, "MeshPatt.__init__", "shading if isinstance(shading, frozenset) else frozenset(shading)", "frozenset(shading)"), "silent"),
         V("reformat-meshpatt", reformat_only(MP), "silent"),
         V("mesh-hash-subset", replace_expr(MP, "MeshPatt.__hash__", "hash((self.pattern, self.shading))", "hash(self.pattern)"), "silent", note="hashing fewer fields than compared is coherent"),
         V("mesh-hash-xor", replace_expr(MP, "MeshPatt.__hash__", "hash((self.pattern, self.shading))", "hash(self.pattern) ^ hash(self.shading)"), "silent"),
@@ -1350,3 +1353,70 @@ def run(ctx: Ctx) -> None:  # noqa: F811
 
 
 FLOORS["C08-R8"] = 3
+
+
+# ------------------------------------------------------------------ R9: what __hash__ / __eq__ read is stored as an immutable value
+
+_MUTABLE_BUILTINS = {"set", "list", "dict", "bytearray", "deque", "defaultdict", "Counter", "OrderedDict"}
+
+
+def rule_r9(ctx: Ctx, classes: List[ClassInfo]) -> None:
+    """A field that hash and equality read must hold a hashable value that nobody else can change: the constructor stores it
+    through an immutable constructor (frozenset(..), tuple(..), ...) or keeps the argument only when it already is one.
+    Positive evidence of the contrary – the stored value is a set / list / dict display or constructor call, or the argument is
+    kept as it is under an isinstance test that admits a mutable builtin type – is a violation: the object becomes unhashable
+    (all_syms, sets of patterns, Av's instance map fail) and aliases the caller's container."""
+    repo = ctx.repo
+    for ci in classes:
+        hf = effective(repo, ci.name, "__hash__")
+        if hf is None or hf.cls is not ci:
+            continue
+        info = analyse_hash(repo, hf)
+        fields = {f for f in info.fields if not f.startswith("<")}
+        for ctor_name in ("__init__", "__new__"):
+            ctor = ci.methods.get(ctor_name)
+            if ctor is None:
+                continue
+            self_n = ctor.params[0]
+            for st in walk_no_nested(ctor.node):
+                if not (isinstance(st, (ast.Assign, ast.AnnAssign)) and st.value is not None):
+                    continue
+                tgts = st.targets if isinstance(st, ast.Assign) else [st.target]
+                for t in tgts:
+                    ch = attr_chain(t)
+                    if not (ch and len(ch) == 2 and ch[0] == self_n and ch[1] in fields):
+                        continue
+                    bad = _mutable_evidence(st.value)
+                    if bad:
+                        ctx.violation("C08-R9", ctor, st, f"{ci.name}.{ch[1]} is read by __hash__ / __eq__ but {bad}: the object can be unhashable and shares a container the caller can still change", robust=True)
+                    else:
+                        ctx.ok("C08-R9", ctor.where, f"no mutable container is stored in hashed field {ch[1]} (`{unparse(st.value)[:60]}`)", st, ctor)
+
+
+def _mutable_evidence(v: ast.AST) -> Optional[str]:
+    if isinstance(v, (ast.Set, ast.List, ast.Dict, ast.SetComp, ast.ListComp, ast.DictComp)):
+        return f"`{unparse(v)[:50]}` is a mutable display"
+    if isinstance(v, ast.Call) and isinstance(v.func, ast.Name) and v.func.id in _MUTABLE_BUILTINS:
+        return f"`{unparse(v)[:50]}` builds a mutable container"
+    if isinstance(v, ast.IfExp):
+        # X if isinstance(X, T) else frozenset(X): the kept branch must not admit a mutable builtin
+        for kept, test, positive in ((v.body, v.test, True), (v.orelse, v.test, False)):
+            if isinstance(kept, ast.Name) and isinstance(test, ast.Call) and isinstance(test.func, ast.Name) and test.func.id == "isinstance" and len(test.args) == 2 \
+                    and isinstance(test.args[0], ast.Name) and test.args[0].id == kept.id and positive:
+                types = test.args[1].elts if isinstance(test.args[1], ast.Tuple) else [test.args[1]]
+                muts = [unparse(x) for x in types if isinstance(x, ast.Name) and x.id in _MUTABLE_BUILTINS]
+                if muts:
+                    return f"the argument is kept as it is when it is a {' / '.join(muts)} (`{unparse(test)}`)"
+        return _mutable_evidence(v.body) or _mutable_evidence(v.orelse)
+    return None
+
+
+_OLD_RUN_R9 = run
+
+
+def run(ctx: Ctx) -> None:  # noqa: F811
+    _OLD_RUN_R9(ctx)
+    ctx.run(rule_r9, ctx, in_scope(ctx.repo))
+
+
+FLOORS["C08-R9"] = 1
